@@ -141,5 +141,6 @@ theorem srwReader_ok : ReaderOK srwReader := by
       · intro n hn; simp at hn; omega
     | eof => simp [srwReader, SRW.read, hra]
     | err e => simp [srwReader, SRW.read, hra]
+    | panic => simp [srwReader, SRW.read, hra]
 
 end FBV.C09
